@@ -119,9 +119,49 @@ def pmap(func, items, procs=None, chunksize=None):
         sys.exit(EXIT_MACHINERY)
 
 
+def _run_chunk(arg):
+    func, chunk = arg
+    return [func(i) for i in chunk]
+
+
 def pmap_unordered(func, items, procs=None, chunksize=1):
-    for r in pmap(func, items, procs=procs, chunksize=chunksize):
-        yield r
+    """Lazy parallel map: yields results as chunks complete (any order), so that a caller may stop
+    early (wall caps). A dead worker is a machinery error (exit 2), never a hang. When the caller
+    stops consuming, work not yet started is cancelled and the workers are terminated."""
+    import concurrent.futures
+    from concurrent.futures.process import BrokenProcessPool
+    items = list(items)
+    procs = procs or NPROC
+    if procs <= 1 or len(items) <= 1:
+        for i in items:
+            yield func(i)
+        return
+    chunks = [items[i:i + chunksize] for i in range(0, len(items), chunksize)]
+    ctx = multiprocessing.get_context("fork")
+    ex = concurrent.futures.ProcessPoolExecutor(procs, mp_context=ctx)
+    done = False
+    try:
+        futs = [ex.submit(_run_chunk, (func, c)) for c in chunks]
+        for fut in concurrent.futures.as_completed(futs):
+            try:
+                res = fut.result()
+            except BrokenProcessPool:
+                print("MACHINERY: a worker process of the parallel map died", file=sys.stderr)
+                sys.exit(EXIT_MACHINERY)
+            for r in res:
+                yield r
+        done = True
+    finally:
+        if done:
+            ex.shutdown(wait=True)
+        else:
+            alive = list((getattr(ex, "_processes", None) or {}).values())
+            ex.shutdown(wait=False, cancel_futures=True)
+            for p in alive:
+                try:
+                    p.terminate()
+                except Exception:
+                    pass
 
 
 # ---------------------------------------------------------------------------------------------
